@@ -144,7 +144,7 @@ def run(ctx):
             for kind in want[ranks]:
                 # for Delta- and Y-sums the last token tells the harness whether the matrix is 3-connected (only then
                 # are the components of a TU matrix minors of it, hence TU); it can only withdraw that one demand
-                tc = " %d" % gen.three_connected(M, p) if kind in (3, 4) else ""
+                tc = " %d" % gen.three_connected(M, p) if kind in (3, 4, 5) else ""
                 dl.append("%d %d %s %s %s%s" % (kind, p, mat_line(M), " ".join(map(str, rowpart)), " ".join(map(str, colpart)), tc))
                 # the same call with some of the optional output arrays NULL / given (nothing but the resource
                 # behaviour is judged then: this feeds C11, C18, C19 through their collectors)
@@ -168,6 +168,16 @@ def run(ctx):
             if p == 2:
                 M = [[abs(x) for x in r] for r in M]
             add_partitions(M, p, False)
+    # ternary presentations (pivots, permutations, +-1 scalings) of Camion-signed regular matroids that have 3-separations
+    # (R12 and small 3-sums of a graphic and a cographic matroid, signed by the library itself): all bipartitions, so that
+    # every concentrated-rank 3-separation reaches the connecting-path search with paths of either sign
+    dseeds = [S for S in gen.library_signed(ctx.drive("rel"), gen.deep_binary_seeds(rng, 10 if q else 60, 49))
+              if len(S) + len(S[0]) <= 13]
+    for _ in range(50 if q else 1200):
+        if not dseeds:
+            break
+        M = gen.pivoted_presentation(rng, [r[:] for r in rng.choice(dseeds)], rng.below(3))
+        add_partitions(M, 3, True)
     recs, codes = ctx.stream("kdecomp", dl, "decompose then compose along all separations of small matrices, random, structured",
                              describe=lambda c: CODES.get(c, str(c)))
     acc = {}
